@@ -27,14 +27,14 @@ def ref_normalize(label):
     return ''.join(out)
 
 
-@lemma('R1.normalisation', 'C07', quick=[{'k1': 1, 'k2': 1}, {'k1': 2, 'k2': 1}, {'k1': 1, 'k2': 2}, {'k1': 3, 'k2': 0}],
+@lemma('R1.normalisation', 'C07', quick=[{'k1': 1, 'k2': 1}] + by('a1', list(A), [{'k1': 2, 'k2': 1}, {'k1': 1, 'k2': 2}]),
        thorough=[{'k1': 1, 'k2': 1}, {'k1': 2, 'k2': 1}, {'k1': 1, 'k2': 2}, {'k1': 3, 'k2': 0}] + by('a1', list(A), [{'k1': 2, 'k2': 2, 'timeout': 3000}, {'k1': 3, 'k2': 1, 'timeout': 3000}]),
        timeout=900, per_path=60,
        covers=['core_tokens.py:normalize_label'],
        note='two labels over the alphabet A of each length: normalize_label(l1) == normalize_label(l2) iff the reference normaliser agrees; and normalize_label equals the reference on each')
 def r1_norm(a1: int, a2: int, a3: int, b1: int, b2: int, b3: int) -> bool:
     """
-    pre: all_in(A, P('k1'), a1, a2, a3) and all_in(A, P('k2'), b1, b2, b3) and fixed(a1, 'a1')
+    pre: fixed(a1, 'a1') and all_in(A, P('k1'), a1, a2, a3) and all_in(A, P('k2'), b1, b2, b3)
     post: _
     """
     l1 = SC(P('k1'), A, a1, a2, a3)
@@ -55,7 +55,7 @@ class Root:
 def r2_first_wins(a1: int, a2: int, b1: int, b2: int, c1: int, c2: int, d1: int, d2: int) -> bool:
     """
     pre: all_in('aA ß', P('k'), a1, a2) and all_in('aA ß', P('k'), b1, b2) and all_in('aA ß', P('k'), c1, c2)
-    pre: all_in('xy', 1, d1) and all_in('xy', 1, d2) and fixed(a1, 'a1') and fixed(b1, 'b1')
+    pre: fixed(a1, 'a1') and fixed(b1, 'b1') and all_in('xy', 1, d1) and all_in('xy', 1, d2)
     post: _
     """
     k = P('k')
